@@ -30,6 +30,12 @@ THEMES = {
           "case and for everything the existing tests do, wrong under a specific condition (an uncommon node kind or layout, a second "
           "call that sees the stale value, an operand for which the fast-path test is true although the slow path would have done "
           "something). It should read as plausible and even carry a comment explaining why it is safe."),
+    '9': ("Write the change as a clean-up refactoring: two near-duplicate code paths (the forward and the backward variant of a helper, "
+          "get vs. cut, copy vs. in-place, the FST branch and the pure-AST branch of a conversion, the one-element and the slice variant "
+          "of a put, the `def` / `async def` / `class` or `Tuple` / `List` / `Set` or `Import` / `ImportFrom` branches of a handler, the "
+          "first-element / middle / last-element cases) are merged into one, or a special case is 'generalised' / a helper is reused "
+          "where hand-written code stood - and a small asymmetry that one of the paths needed gets lost. Everything the paths had in "
+          "common stays right; only the inputs that needed the lost asymmetry go wrong."),
 }
 
 
@@ -92,7 +98,7 @@ Deliverables, in the directory {out} (create it):
    "needs": "<what exactly is needed for it to manifest, and what is unaffected>", "tests": "<last line of the pytest run
    with the patch>", "demo_unpatched_exit": 0, "demo_patched_exit": <n>}}.
 Before you finish: verify yourself that (i) the suite result with the patch is identical to the baseline, (ii) demo.py
-exits 0 without the patch (use `git stash` / `git stash pop` or `git apply -R`) and non-zero with it. Leave the worktree with the patch
+exits 0 without the patch (save `git diff` to a file and use `git apply -R <file>` / `git apply <file>`; do NOT use `git stash`, the stash is shared between worktrees) and non-zero with it. Leave the worktree with the patch
 applied. In your final answer report the three file paths and one paragraph on the change. If you notice that the
 UNCHANGED library already violates the property for some input, mention that input in your final answer too.""")
 
